@@ -333,8 +333,18 @@ SingChain == C("singchain", <<R("r1", SG, 0, "a", "ctorerr", FALSE, <<>>),
                               R("r4", SC, 3, "a", "ctorerr", FALSE, <<P("S2")>>)>>)
 CancelFaulty == {WithFault(SingChain, r, 1, "cancel") : r \in {"r1", "r2", "r3"}}
            \cup {WithFault(Multi, "r1", 1, "cancel"), WithFault(GroupDeps, "r1", 1, "cancel"), WithFault(GroupDeps, "r3", 1, "cancel")}
+\* a singleton that consumed a disposable TRANSIENT, followed by a singleton that fails: the failed Build must close
+\* the transient too (it belongs to the root scope)
+TransThenFail == C("transthenfail", <<R("r1", TR, 2, "a", "ctorerr", FALSE, <<>>),
+                                      R("r2", SG, 0, "a", "ctorerr", FALSE, <<P("S2")>>),
+                                      R("r3", SG, 1, "a", "ctorerr", FALSE, <<P("S0")>>),
+                                      R("r4", SC, 3, "a", "ctorerr", FALSE, <<P("S1")>>)>>)
+TransFaulty == {WithFault(TransThenFail, "r3", 1, h) : h \in {"err", "panic", "cancel"}}
+          \cup {WithFault(GroupTransDeps, "r1", 1, h) : h \in {"err", "panic"}}
+\* a singleton that is handed the provider, then a failure later in the same Build
+BuiltinFaulty == {WithFault(Builtin, "r4", 1, h) : h \in {"err", "panic"}}
 IfaceFaulty == {WithFault(Iface, "r1", at, h) : at \in {1, 2}, h \in {"nil", "err"}} \cup {WithFault(IfaceSing, "r1", 1, "nil")}
-Faulty == Sane(FaultyAll) \cup CancelFaulty \cup IfaceFaulty
+Faulty == Sane(FaultyAll) \cup CancelFaulty \cup IfaceFaulty \cup Sane(TransFaulty) \cup Sane(BuiltinFaulty)
 NilFaulty == {WithFault(Basic, r, 1, "nil") : r \in {"r1", "r2", "r3"}}
 
 CloseErrs == {WithCloseErr(Basic, ce) : ce \in {<<"r1">>, <<"r2">>, <<"r3">>, <<"r1", "r2">>, <<"r2", "r3">>, <<"r1", "r2", "r3">>}}
@@ -350,6 +360,7 @@ Tree1 == [s1 |-> "prov"]
 
 One(c) == {c}
 CfgBasic == {Basic}
+CfgBuiltinFaults == Sane(BuiltinFaulty)
 CfgRemovedAll == CfgRemoved \cup CfgRemovedDefective
 CfgRelease == {Basic, Chain, Inits, Multi, Diamond2}
 CfgBuiltin == {Builtin}
